@@ -216,13 +216,13 @@ Definition flexpath_translate (v : Vec2) (f : flexpath) : flexpath :=
 (* FlexPath::scale :
      *p = ( *p - center) * scale + center;
      Vec2 wo_scale = {1, fabs(scale)}; if (scale_width) wo_scale.u = wo_scale.v;
-     el->end_extensions *= scale;   *wo++ *= wo_scale *)
+     el->end_extensions *= fabs(scale);   *wo++ *= wo_scale *)
 Definition flex_wo_scale (scale_width : bool) (s : Q) : Vec2 :=
   let v := Qabs s in V2 (if scale_width then v else 1) v.
 Definition flexpath_scale (s : Q) (center : Vec2) (f : flexpath) : flexpath :=
   let wo_scale := flex_wo_scale (fp_scale_width f) s in
   FP (map (fun p => vadd (vscale (vsub p center) s) center) (fp_spine f))
-     (map (fe_map (fun wo => vmul wo wo_scale) (fun e => vscale e s)) (fp_elems f))
+     (map (fe_map (fun wo => vmul wo wo_scale) (fun e => vscale e (Qabs s))) (fp_elems f))
      (fp_scale_width f).
 
 (* FlexPath::mirror : spine as Polygon::mirror; wo->v = -wo->v *)
@@ -238,13 +238,27 @@ Definition flexpath_rotate (a : angle) (center : Vec2) (f : flexpath) : flexpath
 
 (* FlexPath::transform :
      spine as Polygon::transform;
-     Vec2 wo_scale = {1, magnification}; if (scale_width) wo_scale.x = magnification;
-     el->end_extensions *= magnification;  *wo++ *= wo_scale
-   (no fabs, no sign change under x_reflection: finding F7) *)
-Definition flex_wo_transform (scale_width : bool) (mag : Q) : Vec2 :=
-  V2 (if scale_width then mag else 1) mag.
+     Vec2 wo_scale = {1, fabs(magnification)};
+     if (scale_width) wo_scale.u = wo_scale.v;
+     if (x_reflection) wo_scale.v = -wo_scale.v;
+     el->end_extensions *= fabs(magnification);  *wo++ *= wo_scale
+   (as repaired by df9071a / a1ca73a: before, the signed magnification was used throughout and the
+   offsets were not negated under x_reflection - finding F7) *)
+Definition flex_wo_transform (scale_width : bool) (mag : Q) (x_refl : bool) : Vec2 :=
+  let v0 := Qabs mag in
+  let u := if scale_width then v0 else 1 in
+  let v := if x_refl then - v0 else v0 in
+  V2 u v.
 Definition flexpath_transform (T : placement) (f : flexpath) : flexpath :=
-  let wo_scale := flex_wo_transform (fp_scale_width f) (p_mag T) in
+  let wo_scale := flex_wo_transform (fp_scale_width f) (p_mag T) (p_xrefl T) in
+  FP (map (pt_transform T) (fp_spine f))
+     (map (fe_map (fun wo => vmul wo wo_scale) (fun e => vscale e (Qabs (p_mag T)))) (fp_elems f))
+     (fp_scale_width f).
+
+(* the code before the repair, kept to show what the property oracle caught (AffineProofs:
+   flexpath_transform_unrepaired_refuted) *)
+Definition flexpath_transform_unrepaired (T : placement) (f : flexpath) : flexpath :=
+  let wo_scale := V2 (if fp_scale_width f then p_mag T else 1) (p_mag T) in
   FP (map (pt_transform T) (fp_spine f))
      (map (fe_map (fun wo => vmul wo wo_scale) (fun e => vscale e (p_mag T))) (fp_elems f))
      (fp_scale_width f).
@@ -259,19 +273,6 @@ Definition flexpath_apply_op (o : op) (f : flexpath) : flexpath :=
   end.
 Definition flexpath_apply_ops (ops : list op) (f : flexpath) : flexpath :=
   fold_left (fun acc o => flexpath_apply_op o acc) ops f.
-
-(* What the affine image REQUIRES of the parameters of a path under a similarity with scale
-   factor |k| and orientation sign r (r = -1 iff the map reverses orientation): half widths times
-   |k| when width scaling is on, offsets times r*|k|, extensions times |k|.  (Proved necessary
-   and sufficient for the centre line in AffineProofs: centre_rel_similarity_lemma and
-   centre_rel_offset_unique.) *)
-Definition flex_wo_required (scale_width : bool) (k : Q) (reverses : bool) : Vec2 :=
-  V2 (if scale_width then Qabs k else 1) (rsign reverses * Qabs k).
-Definition flexpath_transform_required (T : placement) (f : flexpath) : flexpath :=
-  let wo_scale := flex_wo_required (fp_scale_width f) (p_mag T) (p_xrefl T) in
-  FP (map (pt_transform T) (fp_spine f))
-     (map (fe_map (fun wo => vmul wo wo_scale) (fun e => vscale e (Qabs (p_mag T)))) (fp_elems f))
-     (fp_scale_width f).
 
 (* ------------------------------------------------------------------ RobustPath (src/robustpath.cpp) *)
 Record robustpath : Type := RP {
@@ -293,7 +294,7 @@ Definition rp_simple_scale (s : Q) (r : robustpath) : robustpath :=
   RP (Aff (aa t * s) (ab t * s) (ac t * s) (ad t * s) (atx t * s) (aty t * s))
      (if rp_scale_width r then rp_width_scale r * Qabs s else rp_width_scale r)
      (rp_offset_scale r * Qabs s)
-     (map (fun e => vscale e s) (rp_exts r))
+     (map (fun e => vscale e (Qabs s)) (rp_exts r))     (* end_extensions *= fabs(scale_factor) *)
      (rp_scale_width r).
 
 (* RobustPath::scale : delta = center * (1 - scale); simple_scale(scale); translate(delta) *)
